@@ -38,6 +38,65 @@ def run(check: Check):
   _emnist(check, cf)
 
 
+
+def model_roles(repo, md: FuncInfo):
+  """Names playing the roles pad / bos / eos / oov / full vocabulary size inside a language-model builder,
+  recovered from how they are *used* (metric keyword arguments, loss mask, embedding size), not from their spelling.
+  Returns (roles: role -> Name node, problems: list of str)."""
+  ff = FuncFlow.of(repo, md)
+  problems = []
+  firsts, seconds, oovs, eoss = [], [], [], []
+  for _, c in ff.calls():
+    if isinstance(c.func, ast.Attribute) and txt(c.func.value) == 'metrics' and c.func.attr.startswith('Sequence'):
+      for kw in c.keywords:
+        if kw.arg == 'masked_target_values' and isinstance(kw.value, ast.Tuple) and kw.value.elts:
+          firsts.append(kw.value.elts[0])
+          if len(kw.value.elts) > 1:
+            seconds.append(kw.value.elts[1])
+        if kw.arg == 'oov_target_values' and isinstance(kw.value, ast.Tuple) and kw.value.elts:
+          oovs.append(kw.value.elts[0])
+        if kw.arg == 'eos_target_value':
+          eoss.append(kw.value)
+  def common(nodes, what):
+    names = [n.id for n in nodes if isinstance(n, ast.Name)]
+    if len(names) != len(nodes):
+      problems.append(f'{what}: a literal is used instead of the named id')
+    if not names:
+      return None
+    top = max(set(names), key=names.count)
+    if any(n != top for n in names):
+      problems.append(f'{what}: inconsistent ids {sorted(set(names))}')
+    return next(n for n in nodes if isinstance(n, ast.Name) and n.id == top)
+  roles = {}
+  roles['pad'] = common(firsts, 'padding id in masked_target_values')
+  roles['oov'] = common(oovs, 'oov id')
+  roles['eos'] = common(eoss + seconds, 'eos id')
+  # the logits-mask loop: for i in (a, b, c, d): mask[i] = -inf
+  for n in ff.cfg.nodes:
+    if n.kind == 'for' and isinstance(n.ast.iter, ast.Tuple) and all(isinstance(e, ast.Name) for e in n.ast.iter.elts):
+      known = {v.id for v in roles.values() if v is not None}
+      rest = [e for e in n.ast.iter.elts if e.id not in known]
+      if len(rest) == 1:
+        roles['bos'] = rest[0]
+      roles['_mask_loop'] = n.ast
+  # full vocabulary size: first argument of hk.Embed in forward_pass
+  try:
+    fp = md.nested('forward_pass')
+    for x in ast.walk(fp.node):
+      if isinstance(x, ast.Call) and txt(x.func) == 'hk.Embed' and x.args and isinstance(x.args[0], ast.Name):
+        roles['full_vocab_size'] = x.args[0]
+  except Exception:  # pylint: disable=broad-except
+    pass
+  return roles, problems
+
+
+def _role_value(cf: ConstFolder, md: FuncInfo, roles, role: str):
+  n = roles.get(role)
+  if n is None:
+    return UNKNOWN
+  return cf.eval(md.scope, ast.Name(id=n.id, ctx=ast.Load()))
+
+
 def _cmp(check: Check, where, name: str, a, b, what_a: str, what_b: str):
   known = not isinstance(a, Unknown) and not isinstance(b, Unknown)
   if not known:
@@ -55,10 +114,10 @@ def _shakespeare(check: Check, cf: ConstFolder):
   dsc = {}
   for n in ('PAD', 'BOS', 'EOS', 'OOV', 'VOCAB_SIZE'):
     dsc[n] = cf.eval(ds.scope, ast.Name(id=n, ctx=ast.Load()))
-  env = cf.locals_of(md)
+  roles, problems = model_roles(repo, md)
   pairs = [('PAD', 'pad'), ('BOS', 'bos'), ('EOS', 'eos'), ('OOV', 'oov'), ('VOCAB_SIZE', 'full_vocab_size')]
   for d, m in pairs:
-    _cmp(check, md, f'shakespeare {d}', dsc[d], env.get(m, UNKNOWN), f'datasets.shakespeare.{d}', f'models.shakespeare.{m}')
+    _cmp(check, md, f'shakespeare {d}', dsc[d], _role_value(cf, md, roles, m), f'datasets.shakespeare.{d}', f'models.shakespeare {m} id')
   # preprocess_client uses the named constants
   pc = repo.func(f'{DS}.shakespeare', 'preprocess_client')
   names = {x.id for x in ast.walk(pc.node) if isinstance(x, ast.Name)}
@@ -72,10 +131,13 @@ def _stackoverflow(check: Check, cf: ConstFolder):
   sot = repo.cls(f'{DS}.stackoverflow', 'StackoverflowTokenizer')
   md = repo.func(f'{MD}.stackoverflow', 'create_lstm_model')
   check.analysed(md)
-  env = cf.locals_of(md)
+  roles, problems = model_roles(repo, md)
+  env = {k: _role_value(cf, md, roles, k) for k in ('pad', 'bos', 'eos', 'oov', 'full_vocab_size')}
+  d0 = md.param_default('vocab_size')
+  env['vocab_size'] = cf.eval(md.scope.parent, d0) if d0 is not None else UNKNOWN
   for d, m in (('PAD', 'pad'), ('BOS', 'bos'), ('EOS', 'eos')):
     _cmp(check, md, f'stackoverflow {d}', cf.class_const(tok, d), env.get(m, UNKNOWN),
-         f'DefaultWordTokenizer.{d}', f'models.stackoverflow.{m}')
+         f'DefaultWordTokenizer.{d}', f'models.stackoverflow {m} id')
   # offset added to looked-up ids
   fn = tok.method('create_token_to_ids_fn')
   offset = UNKNOWN
@@ -101,12 +163,16 @@ def _stackoverflow(check: Check, cf: ConstFolder):
 
 
 def _metric_config(check: Check):
-  """Metric / loss configuration of both language models uses the named ids only."""
+  """Metric / loss configuration of both language models uses the model's own special ids consistently."""
   repo = check.repo
   for modname in (f'{MD}.shakespeare', f'{MD}.stackoverflow'):
     md = repo.func(modname, 'create_lstm_model')
     ff = FuncFlow.of(repo, md)
-    allowed = {'pad', 'bos', 'eos', 'oov'}
+    roles, problems = model_roles(repo, md)
+    rn = {k: v.id for k, v in roles.items() if isinstance(v, ast.Name)}
+    check.ob('R-CONST.use', md, 'special ids recovered from their uses', not problems and all(k in rn for k in ('pad', 'eos', 'oov', 'bos')),
+             'every metric masks the same padding id, the same eos / oov ids are used throughout and no literal stands in for an id'
+             if not problems else '; '.join(problems))
     n = 0
     for _, c in ff.calls():
       if isinstance(c.func, ast.Attribute) and txt(c.func.value) == 'metrics' and c.func.attr.startswith('Sequence'):
@@ -115,41 +181,61 @@ def _metric_config(check: Check):
             n += 1
             names = [x.id for x in ast.walk(kw.value) if isinstance(x, ast.Name)]
             lits = [x for x in ast.walk(kw.value) if isinstance(x, ast.Constant)]
-            want = {'masked_target_values': {'pad'}, 'oov_target_values': {'oov'}, 'eos_target_value': {'eos'}}[kw.arg]
-            ok = set(names) <= allowed and not lits and want <= set(names)
+            want = {'masked_target_values': {rn.get('pad')}, 'oov_target_values': {rn.get('oov')}, 'eos_target_value': {rn.get('eos')}}[kw.arg]
+            ok = not lits and want <= set(names) and None not in want
             if kw.arg == 'masked_target_values':
-              ok = ok and set(names) <= {'pad', 'eos'}
-            check.ob('R-CONST.use', md, f'{c.func.attr}({kw.arg}={txt(kw.value)})', ok,
-                     f'{kw.arg} must be built from the model\'s named ids ({sorted(want)} required)', node=c)
+              ok = ok and set(names) <= {rn.get('pad'), rn.get('eos')}
+            else:
+              ok = ok and set(names) == want
+            check.ob('R-CONST.use', md, f'{c.func.attr}({kw.arg}=...)', ok,
+                     f'{kw.arg}={txt(kw.value)} must be built from the model\'s own {kw.arg.split("_")[0]} id (and only pad/eos may be masked)',
+                     node=c)
           if kw.arg == 'logits_mask':
             n += 1
-            check.ob('R-CONST.use', md, f'{c.func.attr}(logits_mask={txt(kw.value)})', txt(kw.value) == 'logits_mask',
+            lm_ok = isinstance(kw.value, ast.Name) and roles.get('_mask_loop') is not None and _is_mask_var(ff, kw.value, roles['_mask_loop'])
+            check.ob('R-CONST.use', md, f'{c.func.attr}(logits_mask=...)', lm_ok,
                      'the logits mask passed to the metric is the one built from the special ids', node=c)
     check.floor('R-CONST.use', f'metric id arguments in {modname}', n, 8)
     # logits mask covers exactly the special ids over the full vocabulary
-    ok_mask = False
-    for n_ in ff.cfg.nodes:
-      if n_.kind == 'for' and isinstance(n_.ast.iter, ast.Tuple):
-        ids = [txt(e) for e in n_.ast.iter.elts]
-        body = n_.ast.body
-        sets_inf = any(isinstance(s, ast.Assign) and isinstance(s.targets[0], ast.Subscript) and txt(s.targets[0].value) == 'logits_mask' and
-                       '-jnp.inf' in txt(s.value) for s in body)
-        ok_mask = set(ids) == {'pad', 'bos', 'eos', 'oov'} and sets_inf
-    size_ok = any(isinstance(d.value, ast.ListComp) and isinstance(d.value.generators[0].iter, ast.Call) and txt(
-        d.value.generators[0].iter.args[0]) == 'full_vocab_size' for ds in ff.rd.defs_at.values() for d in ds if d.name == 'logits_mask')
-    check.ob('R-CONST.use', md, 'logits_mask over (pad, bos, eos, oov)', ok_mask and size_ok,
-             f'special ids are never predicted: -inf exactly at pad/bos/eos/oov (ok={ok_mask}) over full_vocab_size entries (ok={size_ok})')
+    ok_mask = size_ok = False
+    lp = roles.get('_mask_loop')
+    if lp is not None:
+      ids = {e.id for e in lp.iter.elts}
+      tgt = None
+      for st in lp.body:
+        if isinstance(st, ast.Assign) and isinstance(st.targets[0], ast.Subscript) and isinstance(st.targets[0].value, ast.Name) and '-jnp.inf' in txt(
+            st.value) and txt(st.targets[0].slice) == txt(lp.target):
+          tgt = st.targets[0].value.id
+      ok_mask = tgt is not None and ids == {rn.get('pad'), rn.get('bos'), rn.get('eos'), rn.get('oov')}
+      fv = rn.get('full_vocab_size')
+      size_ok = tgt is not None and any(isinstance(d.value, ast.ListComp) and isinstance(d.value.generators[0].iter, ast.Call) and txt(
+          d.value.generators[0].iter.args[0]) == fv for ds in ff.rd.defs_at.values() for d in ds if d.name == tgt)
+    check.ob('R-CONST.use', md, 'logits mask = -inf exactly at (pad, bos, eos, oov) over the full vocabulary', ok_mask and size_ok,
+             f'special ids are never predicted: -inf exactly at the four special ids (ok={ok_mask}) over full-vocabulary-size entries (ok={size_ok})')
     # loss mask
     tl = md.nested('train_loss')
-    ok_loss = any(isinstance(x, ast.Compare) and isinstance(x.ops[0], ast.NotEq) and txt(x.comparators[0]) == 'pad' and txt(x.left) == 'targets'
+    ok_loss = any(isinstance(x, ast.Compare) and isinstance(x.ops[0], ast.NotEq) and txt(x.comparators[0]) == rn.get('pad')
                   for x in ast.walk(tl.node))
-    check.ob('R-CONST.use', tl, 'per_token_loss *= targets != pad', ok_loss, 'padding positions carry no loss')
-    # embedding / output sizes use full_vocab_size
+    check.ob('R-CONST.use', tl, 'per-token loss masked where targets != pad', ok_loss, 'padding positions carry no loss')
+    # embedding / output sizes use the full vocabulary size
     fp = md.nested('forward_pass')
     sizes = [txt(c.args[0]) for c in ast.walk(fp.node) if isinstance(c, ast.Call) and txt(c.func) in ('hk.Embed', 'hk.Linear') and c.args]
-    check.ob('R-CONST.use', fp, f'layer sizes {sizes}', 'full_vocab_size' in sizes and sizes.count('full_vocab_size') >= 2 or (
-        'full_vocab_size' in sizes and modname.endswith('stackoverflow')), 'embedding and output layers cover every label the dataset can emit',
-             nontrivial=False)
+    fv = rn.get('full_vocab_size')
+    check.ob('R-CONST.use', fp, f'layer sizes', fv in sizes and (sizes.count(fv) >= 2 or modname.endswith('stackoverflow')),
+             f'embedding and output layers cover every label the dataset can emit ({sizes})', nontrivial=False)
+
+
+def _is_mask_var(ff: FuncFlow, name: ast.Name, loop: ast.For) -> bool:
+  """name is (a tuple() copy of) the list written in the mask loop."""
+  written = {st.targets[0].value.id for st in loop.body if isinstance(st, ast.Assign) and isinstance(st.targets[0], ast.Subscript) and isinstance(
+      st.targets[0].value, ast.Name)}
+  if name.id in written:
+    return True
+  for d in ff.defs_for(name):
+    v = d.value
+    if isinstance(v, ast.Call) and v.args and isinstance(v.args[0], ast.Name) and v.args[0].id in written:
+      return True
+  return False
 
 
 def _cifar(check: Check):
@@ -177,8 +263,8 @@ def _cifar(check: Check):
              f'{want}(num_pixels); fedjax uses {form}(num_pixels): low-contrast / constant images are scaled differently'
              if form != want else f'floor is {form}(num_pixels) as in TensorFlow', node=floor)
     # num_pixels is the per-image element count
-    npx = any(isinstance(d.value, ast.Call) and ff.ext(d.value.func) == 'numpy.prod' and '[-3:]' in txt(d.value.args[0])
-              for ds in ff.rd.defs_at.values() for d in ds if d.name == 'num_pixels')
+    npx = any(isinstance(x, ast.Name) and any(isinstance(d.value, ast.Call) and ff.ext(d.value.func) == 'numpy.prod' and '[-3:]' in txt(
+        d.value.args[0]) for d in ff.defs_for(x)) for x in ff.deep_walk(floor))
     check.ob('R-SIB.tf', fi, 'num_pixels = prod(image.shape[-3:])', npx, 'pixel count per image (height * width * channels)')
   # mean/std over the three image axes, keepdims
   stats_ok = 0
@@ -194,12 +280,14 @@ def _cifar(check: Check):
   ok_off = 0
   for ds in ff.rd.defs_at.values():
     for d in ds:
-      if d.name in ('height_offset', 'width_offset') and isinstance(d.value, ast.BinOp) and isinstance(d.value.op, ast.FloorDiv):
+      if isinstance(d.value, ast.BinOp) and isinstance(d.value.op, ast.FloorDiv):
         l, r = d.value.left, d.value.right
-        want = 'crop_height' if d.name == 'height_offset' else 'crop_width'
-        if isinstance(l, ast.BinOp) and isinstance(l.op, ast.Sub) and isinstance(l.left, ast.Constant) and l.left.value == 32 and txt(
-            l.right) == want and isinstance(r, ast.Constant) and r.value == 2:
-          ok_off += 1
+        if isinstance(l, ast.BinOp) and isinstance(l.op, ast.Sub) and isinstance(l.left, ast.Constant) and l.left.value == 32 and ff.param_of(
+            l.right) in ('crop_height', 'crop_width') and isinstance(r, ast.Constant) and r.value == 2:
+          # and the crop slice is [off : off + crop]
+          want = ff.param_of(l.right)
+          used = any(isinstance(x, ast.Slice) and txt(x.lower) == d.name and txt(x.upper) == f'{d.name} + {want}' for x in ast.walk(fi.node))
+          ok_off += 1 if used else 0
   check.ob('R-OFFSET', fi, '(32 - crop) // 2', ok_off == 2, 'the evaluation crop is centred')
   # crop bounds validated
   raises = any(isinstance(n.ast, ast.Raise) for n in ff.cfg.nodes if n.kind == 'stmt')
@@ -291,9 +379,9 @@ def _tasks(check: Check):
       m = repo.func(f'{MD}.emnist', q)
     except Exception:  # pylint: disable=broad-except
       continue
-    vals = [txt(d.value) for d in [b for b in m.scope.bindings.get('num_classes', [])] if d.value is not None]
-    ok = any('10 if only_digits else 62' in v for v in vals)
-    check.ob('R-TASK.classes', m, f'num_classes = {vals}', ok, 'EMNIST has 10 labels with only_digits and 62 otherwise',
+    vals = [txt(x) for x in ast.walk(m.node) if isinstance(x, ast.IfExp) and txt(x.test) == 'only_digits']
+    ok = any(v == '10 if only_digits else 62' for v in vals)
+    check.ob('R-TASK.classes', m, 'num_classes = 10 if only_digits else 62', ok, f'EMNIST has 10 labels with only_digits and 62 otherwise ({vals})',
              nontrivial=False)
 
 
